@@ -26,7 +26,9 @@ def run_one(pid, patch, tier="quick"):
                            capture_output=True, text=True)
         if p.returncode != 0:
             return {"patch": patch, "status": "patch-failed", "out": p.stdout + p.stderr}
-        env = dict(os.environ, VERIF_SRC=os.path.join(scratch, "src"))
+        env = dict(os.environ, VERIF_SRC=os.path.join(scratch, "src"),
+                   VERIF_EVIDENCE_DIR=os.path.join(scratch, "evidence"),
+                   VERIF_FOUND_DIR=os.path.join(scratch, "found"))
         t0 = time.time()
         r = subprocess.run([os.path.join(HERE, "check"), pid, tier], capture_output=True,
                            text=True, env=env)
